@@ -16,6 +16,8 @@ for m in sorted(glob.glob('/verif/seeded/*/meta.json')):
                 what = l[:160]; break
     if d.get('not_counted'):
         checks += f" — **not counted**: {d['not_counted']}"
+    if d.get('note'):
+        checks += f" — {d['note']}"
     rows.append(f"| {d['seed']} | {d['breaks_property']} | {conf} | {checks} | {what} |")
 out = ["# Independently seeded changes", "",
        "Each change was produced by a sub-agent that saw only the text of one property and worked in its own",
